@@ -4,7 +4,11 @@
 (* is a sequence of entries <<mode, subtree>>: one code constant of the     *)
 (* table each, referenced by one LOAD_CONST ("once"), by two ("twice": the  *)
 (* same table entry used from two places) or by none ("unref": the <=3.9    *)
-(* peephole removed the code that used it, `if 0:` bodies, ...).           *)
+(* peephole removed the code that used it, `if 0:` bodies, ...).  A third  *)
+(* component says whether the entry is a TWIN of the entry before it: a    *)
+(* separate code object that decodes to EQUAL data (CPython keeps two      *)
+(* lambdas apart when each folded its own NaN, the library identifies all  *)
+(* NaNs); a twin must still be yielded as often as it is in the table.     *)
 (*   Expected(t)  what iteration must yield: every table entry once         *)
 (*   RefIter(t)   the reference model of CodeData.__iter__                  *)
 (* Every tree is printed; the harness builds it as real nested code         *)
@@ -17,8 +21,11 @@ CONSTANTS MaxTop, MaxChild, Emit
 Modes == {"once", "twice", "unref"}
 
 \* all trees of depth <= 1 with at most n entries
-Leaves(n) == UNION {[1..k -> {<<m, <<>>>> : m \in Modes}] : k \in 0..n}
-Trees == UNION {[1..k -> {<<m, c>> : m \in Modes, c \in Leaves(MaxChild)}] : k \in 0..MaxTop}
+\* (twins at the top level only, and never as the first entry: keeps the enumeration at ~2x the twin-free one)
+Leaves(n) == UNION {[1..k -> {<<m, <<>>, FALSE>> : m \in Modes}] : k \in 0..n}
+Trees == {t \in UNION {[1..k -> {<<m, c, tw>> : m \in Modes, c \in Leaves(MaxChild), tw \in BOOLEAN}] : k \in 0..MaxTop} :
+             /\ (Len(t) >= 1 => ~t[1][3])
+             /\ (Len(t) > 2 => \A i \in DOMAIN t : ~t[i][3])}
 
 VARIABLES tree
 vars == <<tree>>
